@@ -608,6 +608,12 @@ def run(rep):
     rep.guarded("R-C03-subindex", rule_subindex)
     rep.guarded("R-C03-panic-sites", rule_panics)
     rep.guarded("R-C03-fft-capacity", rule_fft_capacity)
+    import arith
+    rep.guarded("R-C03-arith", arith.run)
+    rep.floor("R-C03-arith", 60)     # 74 sites on the reviewed tree; a few may legitimately disappear (e.g. saturating_sub)
+    rep.clause("R-C03-arith", "every unsigned subtraction, integer division/remainder and chunks()/chunks_mut() call of the crate (sites enumerated from MIR, i.e. type-resolved) "
+                              "is covered by a guard, a loop range, a non-zero literal, a field that is positive by construction (lower-bound evaluation of the constructors with gcd / div_ceil "
+                              "lemmas) or the floor-multiple identity; the FFT block sizes are >= 1 for every accepted configuration")
     if rep.ctx.tier == "thorough":
         rep.guarded("R-C03-crosscheck", rule_crosscheck)
         rep.floor("R-C03-crosscheck", 8)
